@@ -214,7 +214,20 @@ CLAIMED.update({
               'process KILLED / EXCEPTED or is the pending interrupt action of the step in flight), '
               'C04_listener_kill_effective_between_steps, C04_listener_pending_kill_enacted and C04_listener_kill_enacted (it is '
               'enacted when the closing part of the step returns), C04_listener_nothing_left_pending (the finally of step() cancels '
-              'nothing a listener asked for on a live process).'),
+              'nothing a listener asked for on a live process). '
+              'Processes LOADED FROM A CHECKPOINT (restoreCfgN m b = the instance load_instance_state + init() build from a bundle, '
+              'lean/PlumpyModel/Persist/Plain.lean + Reload.lean; every program, every bundle b — in particular saveCfg of a reachable '
+              'configuration at a step boundary —, every history of events applied to the restored instance): '
+              'C04_restored_kill_committed, C04_restored_no_stale_killing, C04_restored_always_killable / '
+              'C04_checkpointed_process_killable (the three theorems above with the restored configuration as base case), '
+              'C04_restored_future_has_kill_hook (a pending process future carries try_killing, not yet scheduled: invariant FutHook), '
+              'C04_restored_cancel_is_kill (future().cancel() then the try_killing callback yields the configuration of kill(), every '
+              'field except the future object and the handed-out action futures), C04_restored_cancel_kills (the scheduled callback '
+              'survives any history and kills whenever it runs on a live process; the kill then survives every further history); '
+              'the same two cancellation theorems for never-checkpointed processes (C04_future_has_kill_hook, C04_cancel_is_kill). '
+              'Tie: every case of the restored-kill stream (bundle at an entered-state event / between two callbacks after a '
+              'pause; kill or cancel after 0..2 callbacks) is sent through `pmodel pmr` and the restored process compared after the '
+              'restore, after every op and at quiescence.'),
     'C05': pm('Theorems C05_nothing_runs_while_paused (no activation in any history starts with paused = true), C05_pause_total, '
               'C05_play_total, C05_play_unpauses, C05_play_cancels_pending_pause, C05_status_restored (status model). With requests made by '
               'listeners during transitions (model PMF.L): C05_listener_nothing_runs_while_paused (every program, plan, history), '
